@@ -11,12 +11,12 @@ claimed = {
  "C07": dict(text="Bounded model checking of the two stores the chain state lives in, each with the crash point as a variable (a counter over the file operations of an in-memory file system, the k-th of which panics instead of happening), each followed by a reopen: "
                   "(a) the unspent-output store (lib/utxo: NewUnspentDb, CommitBlockTxs, UndoBlockTxs, Save / save with its writer goroutine, Close) over a tree of four blocks with a snapshot at G or at A: every session of 3 (thorough 4) operations from {connect, disconnect, snapshot}: "
                   "the store comes up at the tip of the last completed snapshot or of one begun later (exactly the last tip after a clean Close) holding the replay of that tip's chain, and bringing it to the session's final tip with the undo files found on disk gives that tip's replay; "
-                  "(b) the block store (lib/chain BlockDB: BlockAdd, Idle, BlockTrusted / BlockInvalid, Close, LoadBlockIndex, BlockGet) holding two blocks: add, optional flush, optional flag change, add, optional flush, Close: every listed block is intact, completed writes and flags are kept, append order holds, and re-adding the missing blocks gives the complete store.",
+                  "(b) the block store (lib/chain BlockDB: BlockAdd, Idle, BlockTrusted / BlockInvalid, Close, LoadBlockIndex, BlockGet) holding two blocks: add, optional flush, optional flag change, add, optional flush, Close: every listed block is intact, completed writes and flags are kept, append order holds, and re-adding the missing blocks gives the complete store; (c) the block store's index and data file cut to a prefix each (case split over the cut points): exactly the complete records are listed, every listed block is returned intact or refused, never as other bytes, also after the next append and restart.",
              ref="6/C07", note=NOTE + "Component level only: the orchestration of the two stores by lib/chain (NewChainExt, ParseTillBlock, reorganisation on restart) is outside, and so is the agreement between the stores after a crash. "
-                  "File system model: an in-memory map inside the harness; writes atomic and durable in program order (a process death, not a power loss: torn writes, reordering and truncated files are outside). "
+                  "File system model: an in-memory map inside the harness; writes atomic and durable in program order (a process death; of the power-loss effects only prefix truncation of the block store's two files is covered: torn or reordered writes are outside). "
                   "Goroutines run on one schedule: queued at the go statement and run when the spawner waits for them (zzverif.LazyGo); snapshots are small enough to be written in one piece, so an aborted snapshot is outside. "
                   "Counterexamples are replayed natively by running the same session in a child process under gdb, killed at every entry to / return from an openat, write, pwrite64, renameat or unlinkat system call, and reopening the directory. "
-                  "One genuine defect is an open known finding (undo files named by height alone: C07-undo-file-of-other-branch). "),
+                  "Two genuine defects are open known findings (undo files named by height alone: C07-undo-file-of-other-branch; index records beyond the end of a truncated data file: C07-index-beyond-data-file). "),
  "C16": dict(text="Bounded model checking of one step of the block store (lib/chain BlockDB) from an arbitrary well-formed on-disk state: two stored blocks with arbitrary trusted / invalid flags (index and data file built in the store's own format), "
                   "stored raw or as snappy streams longer than the block, then open + index walk, one block added, optionally flushed, optionally one of the three blocks marked trusted or invalid (the new one still queued or written), close and reopen, with a cache of 1 or 10 blocks and with or without data-file roll-over: "
                   "every block not marked invalid is read back byte-identical by its hash (from cache, queue or disk), the index walk lists exactly the non-invalid blocks with height, size, transaction count and trusted flag, and appending overwrites none of them.",
